@@ -134,7 +134,7 @@ func genAmountString() *rapid.Generator[string] {
 		case 10, 11: // a short mantissa times a power of ten, written with an exponent: values up to and just beyond 2^63-1 droplets
 			d := rapid.Uint64Range(1, 999).Draw(t, "mant")
 			z := rapid.IntRange(0, 19).Draw(t, "zeros") // droplets = d * 10^z
-			e := z - 6                                   // coins = d * 10^(z-6)
+			e := z - 6                                  // coins = d * 10^(z-6)
 			form := rapid.IntRange(0, 2).Draw(t, "form")
 			switch form {
 			case 0:
